@@ -71,7 +71,8 @@ NMAX_ENUM = {"quick": 256, "thorough": 2048}
 TOL = {"f8": 1e-12, "f4": 2e-5}
 TOL_PER_SAMPLE = {"f8": 4e-15, "f4": 0.0}
 DT = {"f8": np.float64, "f4": np.float32}
-SDT = {"f8": np.float64, "f4": np.float32, "i8": np.int64, "i4": np.int32}
+SDT = {"f8": np.float64, "f4": np.float32, "i8": np.int64, "i4": np.int32, "u2": np.uint16, "u8": np.uint64}
+PDT = {"f8": np.float64, "f4": np.float32, "i4": np.int32, "u2": np.uint16}  # sample types handed to parabolic_max
 SCAL = {"int": int, "float": float, "npf8": np.float64, "npf4": np.float32, "npi8": np.int64, "npi4": np.int32}
 TOL_DELAY = 0.05  # "a few hundredths of a sample"
 
@@ -140,6 +141,7 @@ def enum_cases(desc):
 # =================================================================================================
 # strategies
 
+_MEM1 = ["plain", "plain", "ro", "strided", "neg", "ro_strided"]  # memory of a 1-D argument
 _SPECIAL_SMALL = [2, 3, 4, 5, 7, 8, 9, 16, 17, 27, 31, 32, 64, 81, 97, 127, 128, 243, 251, 255, 256]
 _SPECIAL_BIG = [257, 509, 511, 512, 513, 729, 1021, 1023, 1024, 1025, 2039, 2047, 2048]
 
@@ -174,12 +176,27 @@ def _st_pertrace(draw, n):
     if allint:
         m = n - 1
         pal = [draw(st.one_of(st.integers(-m, m), st.sampled_from([0, 1, -1, m, -m]))) for _ in range(k)]
-        sd = draw(st.sampled_from(["f8", "f4", "i8", "i4"]))
+        sd = draw(st.sampled_from(["f8", "f4", "i8", "i4", "u2", "u8"]))
+        if sd[0] == "u":
+            pal = [abs(v) for v in pal]
     else:
         pal = [draw(_st_value(n)) for _ in range(k)]
         sd = draw(st.sampled_from(["f8", "f8", "f4"]))
     return {"palette": pal, "seed": draw(st.integers(0, 2 ** 32 - 1)), "sdtype": sd,
-            "sshape": draw(st.sampled_from(["flat", "nd", "keep"]))}
+            "sshape": draw(st.sampled_from(["flat", "nd", "keep"])),
+            "smem": draw(st.sampled_from(["plain", "plain", "ro", "strided", "neg", "ro_strided"]))}
+
+
+_CALLS = ["kw", "kw", "pos", "skw", "defaxis", "defaxis", "allkw"]
+
+
+@st.composite
+def _st_dim(draw, rep_share):
+    """The dimensions of an fshift case that do not change the expected result: call form, read-only input, layout of
+    the spectral input, number of further calls with the same argument objects."""
+    return {"call": draw(st.sampled_from(_CALLS)), "ro": draw(st.booleans()),
+            "xspec": draw(st.sampled_from(["C", "C", "F", "view"])),
+            "rep": draw(st.sampled_from([0] * rep_share + [1, 1, 2]))}
 
 
 @st.composite
@@ -200,8 +217,9 @@ def _st_basis(draw, big):
         else:
             ops.append({"op": "pertrace", **draw(_st_pertrace(n))})
     return {"mode": "basis", "n": n, "axis": draw(st.sampled_from([0, 1, -1, -2])),
-            "dtype": draw(st.sampled_from(["f8", "f4"])), "layout": draw(st.sampled_from(["C", "F"])),
-            "freq": draw(st.sampled_from([False, False, True])), "ops": ops}
+            "dtype": draw(st.sampled_from(["f8", "f4"])), "layout": draw(st.sampled_from(["C", "F", "view", "neg"])),
+            "freq": draw(st.sampled_from([False, False, True])), "ops": ops,
+            "dim": draw(_st_dim(21 if big else 6))}
 
 
 @st.composite
@@ -223,9 +241,11 @@ def _st_sines(draw):
         sh = {"kind": "pertrace", **draw(_st_pertrace(n))}
     second = draw(st.one_of(st.none(), st.none(), _st_scalar(n)))
     return {"mode": "sines", "shape": shape, "axis": axis, "dtype": draw(st.sampled_from(["f8", "f4"])),
-            "layout": draw(st.sampled_from(["C", "F", "view"])), "freq": draw(st.sampled_from([False, False, True])),
+            "layout": draw(st.sampled_from(["C", "F", "view", "neg", "last"])),
+            "freq": draw(st.sampled_from([False, False, True])),
             "seed": draw(st.integers(0, 2 ** 32 - 1)), "ncomp": draw(st.integers(1, 6)),
-            "band": draw(st.sampled_from(["full", "full", "top", "low"])), "shift": sh, "second": second}
+            "band": draw(st.sampled_from(["full", "full", "top", "low"])), "shift": sh, "second": second,
+            "dim": draw(_st_dim(5)), "prime": draw(st.booleans())}
 
 
 @st.composite
@@ -253,7 +273,10 @@ def _st_corrmax(draw):
     return {"mode": "corrmax", "comps": draw(_st_comps()), "s": draw(_st_delay()), "pad": draw(st.floats(0.0, 12.0)),
             "extra": draw(st.integers(0, 1)), "coff": draw(st.floats(-1.0, 1.0)),
             "scale": draw(st.sampled_from([1.0, 1.0, 1e-6, 37.5, -80.0])),
-            "dtype": draw(st.sampled_from(["f8", "f8", "f4"])), "copy": draw(st.sampled_from(["fshift", "analytic"]))}
+            "dtype": draw(st.sampled_from(["f8", "f8", "f4"])), "copy": draw(st.sampled_from(["fshift", "analytic"])),
+            "dtype2": draw(st.sampled_from([None, None, "f8", "f4"])),
+            "mem": draw(st.sampled_from(_MEM1)), "mem2": draw(st.sampled_from(_MEM1)),
+            "rep": draw(st.sampled_from([0, 1, 1])), "prime": draw(st.booleans())}
 
 
 @st.composite
@@ -263,7 +286,9 @@ def _st_cluster(draw):
     return {"mode": "cluster", "comps": draw(_st_comps()), "nspikes": nsp, "ntraces": draw(st.integers(1, 6)),
             "shifts": [draw(_st_delay()) for _ in range(nshift)], "pad": draw(st.floats(0.0, 8.0)),
             "extra": draw(st.integers(0, 1)), "coff": draw(st.floats(-1.0, 1.0)), "seed": draw(st.integers(0, 2 ** 32 - 1)),
-            "sign": draw(st.sampled_from([1.0, -1.0]))}
+            "sign": draw(st.sampled_from([1.0, -1.0])), "dtype": draw(st.sampled_from(["f8", "f8", "f4"])),
+            "layout": draw(st.sampled_from(["C", "C", "F", "view", "neg", "last"])),
+            "rep": draw(st.sampled_from([0, 1]))}
 
 
 @st.composite
@@ -275,7 +300,10 @@ def _st_parabola(draw):
         c = draw(st.one_of(st.floats(-2.0, ns + 1.0), st.floats(0.51, ns - 1.51 if ns > 3 else 0.9),
                            st.integers(0, ns - 1).map(float)))
         rows.append({"a": draw(st.floats(-100.0, 100.0)), "b": draw(st.floats(1e-3, 10.0)), "c": float(c)})
-    return {"mode": "parabola", "ns": ns, "rows": rows, "as2d": draw(st.booleans()) or nrows > 1}
+    return {"mode": "parabola", "ns": ns, "rows": rows, "as2d": draw(st.booleans()) or nrows > 1,
+            "dtype": draw(st.sampled_from(["f8", "f8", "f4", "i4", "u2"])),
+            "layout": draw(st.sampled_from(["C", "C", "F", "last", "neg", "ro", "ro_F"])),
+            "rep": draw(st.sampled_from([0, 1]))}
 
 
 @st.composite
@@ -283,7 +311,10 @@ def _st_model(draw):
     return {"mode": "model", "n": draw(st.integers(8, 256)), "ntraces": draw(st.integers(1, 24)),
             "seed": draw(st.integers(0, 2 ** 32 - 1)), "ncomp": draw(st.integers(1, 5)),
             "fs": draw(st.sampled_from([30000, 2500, 30000.0])), "vel": draw(st.floats(0.5, 6.0)),
-            "decay": draw(st.sampled_from([3.0, 2.0, 1.0, 2.5])), "default_sxy": draw(st.booleans())}
+            "decay": draw(st.sampled_from([3.0, 2.0, 1.0, 2.5])), "default_sxy": draw(st.booleans()),
+            "sdtype": draw(st.sampled_from(["f8", "f8", "f4"])), "ro": draw(st.booleans()),
+            "wlayout": draw(st.sampled_from(["C", "F", "last"])), "rep": draw(st.booleans()),
+            "extra": draw(st.sampled_from([None, None, "omit", "defwxy", "defspike"]))}
 
 
 _SUB = {"basis_big": _st_basis(True), "basis": _st_basis(False), "sines": _st_sines(), "corrmax": _st_corrmax(),
@@ -324,14 +355,38 @@ def _val(x):
 
 
 def _layout(a, layout, rng=None):
+    """An array equal to `a` with the requested memory layout: C, F (Fortran order), view (every second row of a
+    larger array), last (every second element along the last axis of a larger array), neg (negative stride along the
+    last axis). The filler of the larger arrays is 7, so that reading the buffer instead of the view shows."""
     if layout == "F":
         return np.asfortranarray(a)
     if layout == "view":
         big = np.zeros((2 * a.shape[0],) + a.shape[1:], dtype=a.dtype)
-        big[1::2] = 7.0
+        big[1::2] = 7
         big[::2] = a
         return big[::2]
+    if layout == "last":
+        big = np.zeros(a.shape[:-1] + (2 * a.shape[-1],), dtype=a.dtype)
+        big[..., 1::2] = 7
+        big[..., ::2] = a
+        return big[..., ::2]
+    if layout == "neg":
+        return np.ascontiguousarray(a[..., ::-1])[..., ::-1]
     return np.ascontiguousarray(a)
+
+
+def _mem(a, kind):
+    """An array equal to `a` (any shape) held the way `kind` says: plain, ro (read-only, what np.memmap(mode='r') hands
+    out), strided, neg (reversed view), ro_strided."""
+    if kind in ("strided", "ro_strided"):
+        a = _layout(a, "last")
+    elif kind == "neg":
+        a = _layout(a, "neg")
+    else:
+        a = np.array(a, copy=True)
+    if kind in ("ro", "ro_strided"):
+        a.flags.writeable = False
+    return a
 
 
 def _pertrace_values(op, other_shape):
@@ -351,10 +406,12 @@ def _shape_pertrace(vals, op, full_shape, axis):
     keep[axis] = 1
     other = [d for i, d in enumerate(full_shape) if i != axis % len(full_shape)]
     if op["sshape"] == "flat" or len(full_shape) == 1:
-        return vals.reshape(-1)
-    if op["sshape"] == "keep":
-        return vals.reshape(keep)
-    return vals.reshape(other)
+        out = vals.reshape(-1)
+    elif op["sshape"] == "keep":
+        out = vals.reshape(keep)
+    else:
+        out = vals.reshape(other)
+    return _mem(out, op.get("smem", "plain"))
 
 
 def _untouched(ctx, w, w0, what):
@@ -368,40 +425,101 @@ def _err(y, e):
 
 
 class _Shifter:
-    """Applies fshift in the time domain or on an rfft'd copy (ns given), with the checks every call must pass."""
+    """Applies fshift in the time domain or on an rfft'd copy (ns given), with the checks every call must pass.
+    `dim` (case field, absent in old cases): call form, read-only input, layout of the spectral copy, number of further
+    calls with the SAME argument objects."""
 
-    def __init__(self, ctx, n, axis, freq, dtype):
+    def __init__(self, ctx, n, axis, freq, dtype, dim=None):
         self.ctx, self.n, self.axis, self.freq, self.dtype = ctx, n, axis, freq, dtype
         self.f = sut.fourier().fshift
+        dim = dim or {}
+        self.form = dim.get("call", "kw")
+        self.ro = bool(dim.get("ro", False))
+        self.xspec = dim.get("xspec", "C")
+        self.rep = int(dim.get("rep", 0))
+        ctx.label("call_" + self.form, "w_readonly" if self.ro and not freq else "w_writeable", f"repeat{self.rep}")
+        if freq:
+            ctx.label("spectral_layout_" + self.xspec)
+
+    def _invoke(self, kind, w, s, ns):
+        """One call in the drawn form. ns is None for real input."""
+        ctx, f, axis = self.ctx, self.f, self.axis
+        form = self.form
+        if form == "defaxis" and axis % w.ndim != w.ndim - 1:
+            form = "kw"
+        if form == "pos":
+            return ctx.call(kind, f, w, s, axis) if ns is None else ctx.call(kind, f, w, s, axis, ns)
+        if form == "skw":
+            return ctx.call(kind, f, w, s=s, axis=axis) if ns is None else ctx.call(kind, f, w, s=s, axis=axis, ns=ns)
+        if form == "defaxis":
+            return ctx.call(kind, f, w, s) if ns is None else ctx.call(kind, f, w, s, ns=ns)
+        if form == "allkw":
+            return ctx.call(kind, f, w=w, s=s, axis=axis, ns=ns)
+        return ctx.call(kind, f, w, s, axis=axis) if ns is None else ctx.call(kind, f, w, s, axis=axis, ns=ns)
 
     def __call__(self, x, s, what):
         ctx = self.ctx
-        if not self.freq:
-            x0 = x.copy(order="K")
-            s0 = s.copy() if isinstance(s, np.ndarray) else s
-            y = ctx.call("C07.fshift", self.f, x, s, axis=self.axis)
-            if y is ctx.CRASH:
-                return None
-            _untouched(ctx, x, x0, what)
+        s0 = s.copy() if isinstance(s, np.ndarray) else s
+
+        def shifts_untouched(tag):
             if isinstance(s, np.ndarray):
                 # callers hand in the same header array (h["sample_shift"]) for every chunk
-                ctx.check(np.array_equal(s, s0) and s.shape == s0.shape, "C07.shift_array_mutated",
-                          lambda: f"{what}: the per-trace shift array was modified")
-            if not ctx.check(isinstance(y, np.ndarray) and y.shape == x.shape and y.dtype == x.dtype, "C07.shape_dtype",
-                             lambda: f"{what}: input {x.shape} {x.dtype} -> output {getattr(y, 'shape', None)} "
-                                     f"{getattr(y, 'dtype', type(y))}"):
-                return None
+                ctx.check(s.shape == s0.shape and s.dtype == s0.dtype and np.array_equal(s, s0),
+                          "C07.shift_array_mutated", lambda: f"{what}{tag}: the per-trace shift array was modified")
+
+        if not self.freq:
+            if self.ro and x.flags.writeable:
+                x = x.view()
+                x.flags.writeable = False
+            x0 = x.copy(order="K")
+            y = None
+            for r in range(1 + self.rep):
+                tag = "" if r == 0 else f" (call {r + 1} with the same argument objects)"
+                yr = self._invoke("C07.fshift", x, s, None)
+                if yr is ctx.CRASH:
+                    return None
+                _untouched(ctx, x, x0, what + tag)
+                shifts_untouched(tag)
+                if not ctx.check(isinstance(yr, np.ndarray) and yr.shape == x.shape and yr.dtype == x.dtype,
+                                 "C07.shape_dtype",
+                                 lambda: f"{what}{tag}: input {x.shape} {x.dtype} -> output {getattr(yr, 'shape', None)} "
+                                         f"{getattr(yr, 'dtype', type(yr))}"):
+                    return None
+                if r == 0:
+                    y = yr
+                    ya = np.array(yr, dtype=np.float64, copy=True)
+                else:
+                    self._same(yr, ya, s0, what + tag)
             return y
         X = np.fft.rfft(x, axis=self.axis)
-        Xc = X.copy()
-        Y = ctx.call("C07.fshift_spectral", self.f, Xc, s, axis=self.axis, ns=self.n)
-        if Y is ctx.CRASH:
-            return None
-        if not ctx.check(isinstance(Y, np.ndarray) and Y.shape == X.shape and Y.dtype == X.dtype, "C07.shape_dtype",
-                         lambda: f"{what} (spectral input): input {X.shape} {X.dtype} -> output "
-                                 f"{getattr(Y, 'shape', None)} {getattr(Y, 'dtype', type(Y))}"):
-            return None
-        return np.fft.irfft(Y, self.n, axis=self.axis)
+        y = None
+        for r in range(1 + self.rep):
+            tag = "" if r == 0 else f" (call {r + 1} with the same shift object)"
+            Xc = _layout(X.copy(), self.xspec)  # a complex input is multiplied in place by design: fresh copy per call
+            Y = self._invoke("C07.fshift_spectral", Xc, s, self.n)
+            if Y is ctx.CRASH:
+                return None
+            shifts_untouched(tag)
+            if not ctx.check(isinstance(Y, np.ndarray) and Y.shape == X.shape and Y.dtype == X.dtype, "C07.shape_dtype",
+                             lambda: f"{what}{tag} (spectral input): input {X.shape} {X.dtype} -> output "
+                                     f"{getattr(Y, 'shape', None)} {getattr(Y, 'dtype', type(Y))}"):
+                return None
+            yr = np.fft.irfft(Y, self.n, axis=self.axis)
+            if r == 0:
+                y = yr
+            else:
+                self._same(yr, np.asarray(y, dtype=np.float64), s0, what + tag)
+        return y
+
+    def _same(self, yr, ya, s0, what):
+        """A further call with the same argument objects must give the first answer again (each of the two is within
+        the tolerance of one shift of the exact delay, data of unit amplitude)."""
+        smax = float(np.max(np.abs(np.asarray(s0, dtype=np.float64)))) if np.size(s0) else 0.0
+        tol = 2 * _tol(self.dtype, smax)
+        e = _err(yr, ya)
+        self.ctx.stat("err_repeat_over_tol_" + self.dtype, e / tol)
+        self.ctx.check(e <= tol, "C07.repeat_call",
+                       lambda: f"{what}: result differs from the first call's by {e:.3g}")
 
 
 def _n_labels(ctx, n):
